@@ -19,4 +19,6 @@ for s in $SEEDS; do
   lab=$(grep -o 'replay=[^ ]*' /tmp/seed_$s.log | head -1 | sed 's#.*/##')
   echo "$s property=$prop tier=$tier rc=$rc $(($t1-$t0))s $(grep -c '^VIOLATION' /tmp/seed_$s.log) violations, $(grep -c '^CHECK-BROKEN' /tmp/seed_$s.log) broken $lab"
 done
+# evidence written while a mutation was applied is not evidence of the unchanged tree
+git -C /verif checkout -- evidence
 git -C /repo status --short | head -3
